@@ -94,6 +94,22 @@ def user_class():
 
 
 _FALSY = []
+_LIGHT = []
+
+
+def light_class():
+    """LightNodeMixin subclass without __slots__ of its own: the instances have a __dict__ for user attributes while the
+    tree bookkeeping lives in the mixin's slots (an exporter that peeks at NodeMixin's private storage sees no children)."""
+    from anytree import LightNodeMixin
+
+    if not _LIGHT:
+        class LNode(LightNodeMixin):
+            def __init__(self, parent=None, **kw):
+                self.__dict__.update(kw)
+                self.parent = parent
+
+        _LIGHT.append(LNode)
+    return _LIGHT[0]
 
 
 def falsy_class():
@@ -123,6 +139,10 @@ def build(lib, par, attrs, kind):
     elif kind == "Node":
         nodes = [Node("nm%d" % i, **attrs[i]) for i in range(n)]
         recorded = [dict(list(attrs[i].items()) + [("name", "nm%d" % i)]) for i in range(n)]
+    elif kind == "Light":
+        cls = light_class()
+        nodes = [cls(**attrs[i]) for i in range(n)]
+        recorded = [dict(attrs[i]) for i in range(n)]
     else:
         cls = user_class()
         nodes = [cls(**attrs[i]) for i in range(n)]
@@ -397,7 +417,7 @@ def run(ctx):
     T = ctx.tier == "thorough"
     nmax = 8 if T else 6
     idx = 0
-    kinds = ("AnyNode", "Node", "User", "Falsy")
+    kinds = ("AnyNode", "Node", "User", "Falsy", "Light")
     for n in range(1, nmax + 1):
         for par in gen.ordered_trees(n):
             idx += 1
@@ -405,7 +425,7 @@ def run(ctx):
                 continue
             rng = ctx.rng("attrs", idx)
             ch = gen.children_of(par)
-            for kind in kinds if n <= 5 else (kinds[idx % 4],):
+            for kind in kinds if n <= 5 else (kinds[idx % len(kinds)],):
                 attrs = small_attrs(rng, n)
                 case = {"par": list(par), "kind": kind, "attrs_repr": repr(attrs)}
                 check_all(ctx, lib, rng, par, attrs, kind, case, range(n), lambda s: [None] + list(range(0, R.height(ch, s) + 2)))
@@ -416,7 +436,7 @@ def run(ctx):
         n = rng.randint(1, 25)
         par, _ = gen.random_tree(rng, n)
         ch = gen.children_of(par)
-        kind = kinds[r % 4]
+        kind = kinds[r % len(kinds)]
         attrs = [gen.random_attrs(rng, json_only=False, maxkeys=6) for _ in range(n)]
         case = {"par": list(par), "kind": kind, "attrs_repr": repr(attrs)}
         s = rng.choice([0, rng.randrange(n)])
